@@ -131,7 +131,9 @@ def run_c08(pid):
                              "cdda": ch == 2 and bps == 16 and len(jobs) % 2 == 1,
                              # every third channel-writer run also makes calls that must be refused (unequal channel lengths) on the way
                              **({"refuse_before": [k for k in range(len(c["writes"])) if k % 2 == 1 or len(c["writes"]) == 1]}
-                                if fe == "channel" and ch >= 2 and len(jobs) % 3 == 0 else {})})
+                                if fe == "channel" and ch >= 2 and len(jobs) % 3 == 0 else {}),
+                             # every third byte-writer run flushes (std::io::Write::flush) after some of its writes
+                             **({"flush_after": [k for k in range(len(c["writes"])) if k % 2 == 0]} if fe.startswith("byte") and len(jobs) % 3 == 1 else {})})
     # ---- every single split point, inputs of 2.5 blocks, all front ends
     rnd = random.Random(seed() * 31 + 8)
     for (ch, bps, frames) in ((1, 16, 40), (2, 16, 40), (2, 24, 33)) + (((4, 8, 47), (8, 32, 35), (1, 12, 48)) if t == "thorough" else ()):
@@ -370,7 +372,8 @@ def run_c15(pid):
 
     nominal = dict(rate=44100, bps=16, channels=2, block_size=4096, max_lpc=8, max_po=5, padding=4096)
     sweeps = dict(
-        rate=[0, 1, 8000, 44100, 65535, 65536, 655350, 655351, 1048575, 1048576, 4294967295],
+        # incl. the edges of every frame-header coding: kHz in 8 bits (255000 / 256000), Hz in 16 bits, tens of Hz in 16 bits
+        rate=[0, 1, 8000, 44100, 65535, 65536, 254000, 255000, 256000, 257000, 655340, 655350, 655351, 655360, 1000000, 1048575, 1048576, 4294967295],
         bps=[0, 1, 2, 3, 4, 7, 8, 12, 16, 17, 20, 24, 31, 32, 33, 64],
         channels=[0, 1, 2, 3, 7, 8, 9, 255],
         block_size=[0, 1, 15, 16, 17, 192, 4096, 65535],
